@@ -7,6 +7,7 @@
   all of them, and what the encoder produces is one of them.
 -/
 import Theorems.Lemmas.CodecSpec
+import Theorems.Typed
 
 namespace Amqp.CodecSpec
 open Amqp.Codec Amqp.Gen.Codes
@@ -1154,3 +1155,41 @@ theorem zero_width_array_refused (fuel depth zw : Nat) :
     cDescribedType, hA, next?, MAX_ARRAY_COUNT, bind, Except.bind, pure, Except.pure]
 
 end Amqp.CodecSpec
+
+/-! ## typed composites: every variant a peer may choose is accepted -/
+
+namespace Amqp.Typed
+open Amqp.Codec Amqp.CodecSpec Amqp.Gen.Codes
+
+/-- **typed_variants_accepted.** For every typed value of every declared composite, whatever the
+    encoding peer chooses at the composite level (descriptor by name or by code; all, some or none of
+    the trailing nulls; a default written out or left null; one symbol for a one-element `multiple`
+    field — at every nested composite) *and* at the byte level (every width variant of every node,
+    as in `every_variant_accepted`), the bytes, followed by anything, decode as that type to exactly
+    the value and leave exactly what followed. -/
+theorem typed_variants_accepted (env : List Schema) (hE : EnvOk env) (ty : FTy) (tv : TV) (tch : TCh)
+    (h : TVOk env ty tv) (hn : nest (toTreeV env tch tv) ≤ MAX_NESTING_DEPTH) (bch : Ch) (e tail : Bytes)
+    (he : sEnc bch (toTreeV env tch tv) = some e) :
+    decodeTyped env ty (e ++ tail) = .ok (tv, tail) := by
+  have hw : WF (toTreeV env tch tv) := WF_toTreeV env hE tv ty tch h
+  have hd := every_variant_accepted (toTreeV env tch tv) hw hn bch e tail he
+  have hf := fromTree_toTreeV env hE tv ty tch h
+  unfold decodeTyped
+  rw [hd]
+  simp only [readTyped, hf]
+
+/-- the same for the composites of the source -/
+theorem typed_variants_accepted_source (ty : FTy) (tv : TV) (tch : TCh)
+    (h : TVOk env ty tv) (hn : nest (toTreeV env tch tv) ≤ MAX_NESTING_DEPTH) (bch : Ch) (e tail : Bytes)
+    (he : sEnc bch (toTreeV env tch tv) = some e) :
+    decodeTyped env ty (e ++ tail) = .ok (tv, tail) :=
+  typed_variants_accepted env env_ok ty tv tch h hn bch e tail he
+
+/-- non-vacuity: the sample transfer with the descriptor by name, two trailing nulls kept and the
+    `more` flag's neighbours written out -/
+def sampleTCh : TCh := .comp true 2 [false, false, false, false, false, true, false, false, true] []
+
+example : (toTreeV env sampleTCh sampleTransfer != toTree env sampleTransfer) = true := by decide +kernel
+example : nest (toTreeV env sampleTCh sampleTransfer) ≤ MAX_NESTING_DEPTH := by decide +kernel
+
+end Amqp.Typed
